@@ -32,6 +32,11 @@ CHECKS = {
             "Breadth-first search over histories of the full request alphabet (a well-formed instance of every code 1..=44 and feature-setting variants x NEED_REPLY x scripted handler success/failure, ~430 operations) against the real backend request server driven by a raw peer with the independent codec. After every request: bytes left unread = 0, handler invoked exactly when prescribed, and the bytes written equal the model's prescription (one reply with same code/REPLY/version 1/size=payload, one u64 ack that is zero iff the handler succeeded, or nothing). States are deduplicated on the negotiation state the server's behaviour can depend on; the search runs until no new state appears (closure, reached at depth 3-4) and is then repeated without deduplication to a smaller depth as a guard against a too-coarse key.",
             "Trusted: the reference model's weak readings documented in DESIGN 4/C04; the dedup key is model state only (no accessor hook into the server), guarded by the no-dedup rerun. 'Random beyond the bound' is not claimed.",
             "DESIGN.md 4/C04"),
+    "C05": ("model_checking", "lattice",
+            "deviation-bounded exhaustive enumeration (0, 1, 2 deviations from every well-formed request, two negotiation states, second-message position) against the real BackendReqHandler; panics caught, fatal signals trapped, handler arguments checked by an independent validity predicate",
+            "For a well-formed instance of every request code the message itself, every single deviation (request code 0..=64 and 2^k neighbours, each flag bit, size field over {0,n-1,n+1,4095,4096,4097,2^31,2^32-1}, each 64/32-bit body field over the boundary lattice, truncated/extended body, descriptor counts {0,1,2,n-1,n+1,32,33,40}, descriptors attached to the body segment) and pairs of deviations on different dimensions are fed by a raw peer in two negotiation states and as the second message after each state-changing message (1.2e5 messages quick). The harness is built with overflow checks and debug assertions; a panic, abort or fatal signal is a violation, and every argument tuple the recording handler sees must satisfy the independently written validity predicate with exactly the prescribed file count.",
+            "Trusted: model/validators.rs as the validity rules; reads outside the received message are detected only if they fault. Streams of more than two messages / more than two deviations are outside the bound. Part (ii) (adversarial daemon sequences) is added with the daemon harness.",
+            "DESIGN.md 4/C05"),
     "C06": ("model_checking", "lattice",
             "deviation-bounded exhaustive enumeration (0, 1, 2 mutations of the correct reply) against the real endpoints with a scripted raw peer, acceptance predicate evaluated on the bytes",
             "For each reply-bearing and acknowledged frontend operation, the 5 proxy calls in ack mode and the 4 reply-awaiting GPU calls: the correct reply, every single mutation and every pair of mutations on different dimensions ({other/invalid code, each flag bit, version, size field, body truncation/extension, each body field over a lattice, 0..=3 descriptors}) is pre-queued by a raw peer that closes when the endpoint keeps waiting. If the call returns Ok(v), the bytes must satisfy the statement's acceptance predicate and decode to v; no panic, no indefinite wait. The frontend's request server is fed codes 0..=16 and outliers x flag words x bodies x size deltas x 0..=3 descriptors; the application handler may be invoked only for well-formed requests with exactly the prescribed descriptors.",
@@ -47,6 +52,11 @@ CHECKS = {
             "For every message type of every receiver (backend request server, frontend reply paths, frontend request server, Backend/GPU proxy ack paths) every 2-split position (all positions for short messages, boundary neighbourhoods + stride for long ones), byte-by-byte delivery and 3-splits are delivered by a raw peer that writes the next segment only when the receiver starts waiting; every cut offset followed by close; for every sender every single short-write position, pairs and EAGAIN/EINTR patterns injected at sendmsg. Oracle: same handler log, reply bytes and result as unsplit delivery; bytes exactly once and in order with descriptors only at offset 0; truncation = error, clean Disconnected only at offset 0, nothing dispatched, no indefinite wait.",
             "Trusted: kernel unix-socket semantics for the segment boundaries; the unsplit run of the same message is the reference. Random segmentations with delays are not claimed.",
             "DESIGN.md 4/C08"),
+    "C09": ("fault_enumeration", "lattice",
+            "exhaustive enumeration of (message type x malformation x descriptor count/position x negotiation x second message x teardown point x handler keeps/drops) scenarios on the real endpoints with /proc/self/fd and fstat identity as oracle",
+            "Every request type is sent valid, with size+1, truncated body, REPLY flag, invalid body or unknown code, carrying 0..=40 distinct memfds attached to header or body, optionally followed by a second descriptor-carrying message, and the endpoints are torn down before serving, after the first or after the second message, with a handler that keeps or drops its files; likewise every frontend operation's reply with 0..=33 unexpected descriptors, a full successful session with lent descriptors, and the frontend request server with 0..=40 descriptors. After teardown, for every passed file the number of open descriptors must be 1 (the harness's original) plus the copies the application holds, no identity is delivered twice, descriptors lent to sending calls are still open and the same file, and the process's descriptor numbers equal the snapshot taken before plus what is held.",
+            "Trusted: /proc/self/fd, fstat. Serial execution inside one process. Daemon-level scenarios (vring kick/call files) are covered by the daemon checks' own accounting where present.",
+            "DESIGN.md 4/C09"),
     "C18": ("model_checking", "lattice",
             "exhaustive enumeration of all request histories up to length 3 x handler results x REPLY_ACK on the real Backend proxy<->FrontendReqHandler pair in coop mode, plus independent decoding of the acknowledgement bytes by a raw peer",
             "The five backend-initiated request kinds are issued through the real proxy to the real frontend request server for the UUID / mapping-descriptor lattice, every handler result class (0, non-zero values, six errno values, error without errno), REPLY_ACK on/off and all histories of length 1-2 (length 3 over a reduced alphabet; all at thorough) that mix failing and succeeding requests. Oracle: exactly one handler call with equal arguments and the same file; with REPLY_ACK the proxy succeeds iff the handler returned 0 and each call's status belongs to its own request (a missing or stray ack would shift it; the socket must be empty at the end); without REPLY_ACK nothing is written back or awaited. The ack value (value / negated errno) is decoded from the wire by an independent raw peer for every (kind, result, REPLY_ACK, NEED_REPLY).",
